@@ -84,4 +84,22 @@ def geometry(rng, kind):
     elif kind == "A=B=C":
         A = list(C)
         B = list(C)
+    elif kind in ("planar-z", "planar-x", "planar-y", "axial"):
+        # special positions with exact zeros in the shifted coordinates: a planar molecule (all centres share one
+        # coordinate) or a linear one along a Cartesian axis
+        if kind == "axial":
+            ax = rng.randint(0, 2)
+            A = list(C); B = list(C)
+            A[ax] += rng.uniform(0.5, 2.5) * rng.choice([1, -1]); B[ax] += rng.uniform(0.5, 2.5) * rng.choice([1, -1])
+        else:
+            ax = {"planar-x": 0, "planar-y": 1, "planar-z": 2}[kind]
+            A[ax] = C[ax]; B[ax] = C[ax]
+    elif kind in ("A~C", "B~C"):
+        # just off the ECP centre: beyond the 1e-6 "on the centre" switch, far inside any other length scale
+        r = rng.loguniform(1e-5, 1e-3); d = rand_dir(rng)
+        P = [c + r * x for c, x in zip(C, d)]
+        if kind == "A~C":
+            A = P
+        else:
+            B = P
     return A, B, C
